@@ -550,6 +550,11 @@ func (p *parser) parseElseIfExpression() *ast.ElseIfExpression {
 	p.nextToken()
 	expression.Condition = p.parseExpression(LOWEST)
 
+	// the condition did not parse (its error is recorded): there is no arm
+	if expression.Condition == nil {
+		return nil
+	}
+
 	if !p.expectPeek(token.RPAREN) {
 		return nil
 	}
